@@ -14,6 +14,7 @@ from __future__ import annotations
 
 import copy
 import itertools
+import math
 import os
 import shutil
 import warnings
@@ -276,6 +277,144 @@ def make_variant(src_path, ops, seed, out_path):
     tree.write(out_path, encoding="UTF-8", xml_declaration=True)
 
 
+def _rhash(x):
+    import hashlib
+    import json
+
+    return hashlib.sha1(json.dumps(x, sort_keys=True).encode()).hexdigest()[:12]
+
+
+# ---------------------------------------------------------------- new drawings
+L_PX = 17.0
+SUB_MARKS = [None, None, None, "WedgeBegin", "WedgedHashBegin", "WedgeEnd", "WedgedHashEnd", "Bold", "Hash", "Dash"]
+
+
+def write_drawing(spec, path):
+    """spec -> a minimal CDXML file (what ChemDraw writes, without the cosmetic attributes); returns {label: fragment id}.
+    Each fragment: a ring (regular polygon) or a zig-zag chain of skeleton atoms, 0-2 substituent atoms per skeleton atom placed
+    outwards, optional second-shell atom on a substituent; elements / charges / isotopes / radicals / hydrogen hints per atom;
+    bond orders on skeleton bonds; stereo marks on skeleton->substituent bonds, narrow end at either atom."""
+    ids = itertools.count(10)
+    out = ['<?xml version="1.0" encoding="UTF-8" ?>', '<CDXML CreationProgram="vf" BondLength="%g" LabelFont="3" LabelSize="10">' % L_PX,
+           '<fonttable><font id="3" charset="iso-8859-1" name="Arial"/></fonttable>', '<page id="1" BoundingBox="0 0 2000 800">']
+    intended = {}
+    texts = []
+    for k, fr in enumerate(spec["frags"]):
+        cx, cy = 120.0 + 230.0 * k, 150.0 + 40.0 * (k % 2)
+        n = fr["n"]
+        pts = []
+        if fr["skel"] == "ring":
+            R = L_PX / (2 * math.sin(math.pi / n))
+            off = fr.get("rot", 0) * 0.1
+            pts = [(cx + R * math.cos(2 * math.pi * i / n + off), cy + R * math.sin(2 * math.pi * i / n + off)) for i in range(n)]
+            skel_bonds = [(i, (i + 1) % n) for i in range(n)]
+            outward = [((p[0] - cx) / R, (p[1] - cy) / R) for p in pts]
+        else:
+            pts = [(cx + (i - n / 2) * L_PX * math.cos(math.pi / 6), cy + (L_PX / 2 if i % 2 else 0.0)) for i in range(n)]
+            skel_bonds = [(i, i + 1) for i in range(n - 1)]
+            outward = []
+            for i in range(n):
+                nb = [pts[j] for j in (i - 1, i + 1) if 0 <= j < n]
+                mx, my = sum(p[0] for p in nb) / len(nb), sum(p[1] for p in nb) / len(nb)
+                dx, dy = pts[i][0] - mx, pts[i][1] - my
+                nn = math.hypot(dx, dy) or 1.0
+                outward.append((dx / nn, dy / nn))
+        nodes = []   # (id, x, y, atom spec)
+        for i in range(n):
+            nodes.append([next(ids), pts[i][0], pts[i][1], fr["atoms"][i % len(fr["atoms"])]])
+        bonds = []   # (id, B, E, order, display)
+        for bi, (a, b) in enumerate(skel_bonds):
+            o = "1.5" if fr.get("aromatic") and fr["skel"] == "ring" else [None, None, None, "2", "3"][fr["orders"][bi % len(fr["orders"])] % 5]
+            sm = fr.get("skel_mark")
+            disp = SUB_MARKS[sm[1] % len(SUB_MARKS)] if sm and sm[0] % len(skel_bonds) == bi else None
+            bonds.append([next(ids), nodes[a][0], nodes[b][0], o, disp])
+        per_atom = {}
+        for sb in fr["subs"]:
+            at = sb["at"] % n
+            per_atom.setdefault(at, []).append(sb)
+        for at, lst in per_atom.items():
+            lst = [dict(x) for x in lst[:2]]
+            if len(lst) == 2:
+                # two marks on one centre only as a drawable pair: one towards the viewer, one away (wedge + hash); anything else
+                # (two wedges, two hashes, bold + wedge ...) is not a meaningful drawing: the second mark is dropped
+                m0, m1 = SUB_MARKS[lst[0]["mark"] % len(SUB_MARKS)], SUB_MARKS[lst[1]["mark"] % len(SUB_MARKS)]
+                up, down = ("WedgeBegin", "WedgeEnd"), ("WedgedHashBegin", "WedgedHashEnd")
+                ok_pair = m1 is None or m0 is None or m1 == "Dash" or m0 == "Dash" or (m0 in up and m1 in down) or (m0 in down and m1 in up)
+                if not ok_pair or lst[0].get("flip") or lst[1].get("flip"):
+                    lst[1]["mark"] = 0
+                    lst[1]["flip"] = False
+            angs = [0.0] if len(lst) == 1 else [-0.6, 0.6]
+            for sb, ang in zip(lst, angs):
+                ox, oy = outward[at]
+                dx, dy = ox * math.cos(ang) - oy * math.sin(ang), ox * math.sin(ang) + oy * math.cos(ang)
+                x, y = pts[at][0] + L_PX * dx, pts[at][1] + L_PX * dy
+                sid = next(ids)
+                nodes.append([sid, x, y, sb["atom"]])
+                mark = SUB_MARKS[sb["mark"] % len(SUB_MARKS)]
+                cid = nodes[at][0]
+                if mark in ("WedgeEnd", "WedgedHashEnd"):
+                    B, E = sid, cid            # narrow end is E's side for *End: the centre
+                else:
+                    B, E = cid, sid
+                if sb.get("flip") and mark in ("WedgeBegin", "WedgedHashBegin", "WedgeEnd", "WedgedHashEnd"):
+                    B, E = E, B                # narrow end at the substituent instead
+                bonds.append([next(ids), B, E, None, mark])
+                if sb.get("tail") is not None:
+                    tid = next(ids)
+                    nodes.append([tid, x + L_PX * dx * 0.5 + L_PX * 0.8 * (-dy), y + L_PX * dy * 0.5 + L_PX * 0.8 * dx, sb["tail"]])
+                    bonds.append([next(ids), sid, tid, None, None])
+        xs, ys = [nd[1] for nd in nodes], [nd[2] for nd in nodes]
+        fid = next(ids)
+        out.append('<fragment id="%d" BoundingBox="%.2f %.2f %.2f %.2f">' % (fid, min(xs), min(ys), max(xs), max(ys)))
+        for nid, x, y, a in nodes:
+            attrs = ['id="%d"' % nid, 'p="%.2f %.2f"' % (x, y)]
+            if a.get("el") not in (None, 6):
+                attrs.append('Element="%d"' % a["el"])
+            if a.get("q"):
+                attrs.append('Charge="%d"' % a["q"])
+            if a.get("iso") is not None:
+                attrs.append('Isotope="%d"' % a["iso"])
+            if a.get("rad"):
+                attrs.append('Radical="%s"' % ("Doublet" if a["rad"] == 1 else "Singlet"))
+            if a.get("hint") is not None:
+                attrs.append('NumHydrogens="%d"' % a["hint"])
+            if a.get("ap"):
+                attrs = attrs[:2] + ['NodeType="ExternalConnectionPoint"', 'ExternalConnectionNum="%d"' % a["ap"]]
+            out.append("<n %s/>" % " ".join(attrs))
+        for bid, B, E, o, disp in bonds:
+            out.append('<b id="%d" B="%d" E="%d"%s%s/>' % (bid, B, E, (' Order="%s"' % o) if o else "", (' Display="%s"' % disp) if disp else ""))
+        out.append("</fragment>")
+        label = "L%d" % k
+        intended[label] = str(fid)
+        texts.append('<t id="%d" p="%.2f %.2f"><s font="3" size="10" face="1">%s</s></t>' % (next(ids), (min(xs) + max(xs)) / 2, max(ys) + 22.0, label))
+    out += texts
+    if spec.get("caption"):
+        # a caption that is NOT a label (plain face): must be ignored
+        out.append('<t id="%d" p="30 30"><s font="3" size="10" face="0">scheme 1</s></t>' % next(ids))
+    out += ["</page>", "</CDXML>"]
+    with open(path, "w") as f:
+        f.write("\n".join(out) + "\n")
+    return intended
+
+
+def strat_drawn(tier):
+    el = st.sampled_from([6, 6, 6, 6, 7, 8, 16, 15, 5, 14])
+    sub_el = st.sampled_from([6, 6, 7, 8, 9, 17, 35, 1, 16])
+    atom = st.fixed_dictionaries({"el": el, "q": st.sampled_from([0, 0, 0, 0, 1, -1]), "iso": st.sampled_from([None, None, None, None, 13, 15, 18]),
+                                  "rad": st.sampled_from([0, 0, 0, 0, 1, 2]), "hint": st.sampled_from([None, None, None, 0, 1, 2])})
+    sub_atom = st.one_of(
+        st.fixed_dictionaries({"el": sub_el, "q": st.sampled_from([0, 0, 0, 1, -1]), "iso": st.sampled_from([None, None, None, 2, 13]), "rad": st.sampled_from([0, 0, 0, 1]), "hint": st.sampled_from([None, None, 0, 1, 3])}),
+        st.fixed_dictionaries({"el": st.just(0), "ap": st.integers(1, 3)}),
+    )
+    sub = st.fixed_dictionaries({"at": st.integers(0, 20), "atom": sub_atom, "mark": st.integers(0, len(SUB_MARKS) - 1), "flip": st.sampled_from([False, False, False, True]),
+                                 "tail": st.one_of(st.none(), st.none(), st.fixed_dictionaries({"el": sub_el}))})
+    frag = st.fixed_dictionaries({"skel": st.sampled_from(["ring", "ring", "chain"]), "n": st.integers(3, 7), "rot": st.integers(0, 30), "aromatic": st.sampled_from([False, False, True]),
+                                  "atoms": st.lists(atom, min_size=1, max_size=7), "orders": st.lists(st.integers(0, 4), min_size=1, max_size=7), "subs": st.lists(sub, max_size=6)})   # (stereo marks on skeleton bonds of NEW drawings are not generated: the unchanged tree's ring-bond heuristic does not
+                                                                      #  satisfy the mirror relation on them - outside the quantifier, see DESIGN 10.4)
+    ops = st.lists(st.sampled_from(["permute_top", "translate", "renumber", "permute_nodes"]), max_size=2, unique=True)
+    return st.fixed_dictionaries({"drawing": st.fixed_dictionaries({"frags": st.lists(frag, min_size=1, max_size=3), "caption": st.booleans()}), "ops": ops, "seed": st.integers(0, 10**6)})
+
+
 def _open(path):
     import molli as ml
 
@@ -294,10 +433,16 @@ def check(recipe) -> list[Fail]:
     import molli as ml
 
     fails: list[Fail] = []
-    src = str(getattr(ml.files, recipe["file"]))
+    fname = recipe.get("file", "generated")
     ops = recipe["ops"]
     d = _tmpdir()
     try:
+        if "drawing" in recipe:
+            src = os.path.join(d, "drawn.cdxml")
+            intended = write_drawing(recipe["drawing"], src)
+        else:
+            src = str(getattr(ml.files, recipe["file"]))
+            intended = None
         if ops:
             path = os.path.join(d, "variant.cdxml")
             make_variant(src, [o for o in ops if o != "mirror"], recipe["seed"], path)
@@ -328,7 +473,7 @@ def check(recipe) -> list[Fail]:
                 continue
             n += 1
             sub = dict(recipe, only_key=key)
-            where = f"{recipe['file']}[{key!r}] ops={ops}"
+            where = f"{fname}[{key!r}] ops={ops}"
             try:
                 with warnings.catch_warnings():
                     warnings.simplefilter("ignore")
@@ -344,6 +489,9 @@ def check(recipe) -> list[Fail]:
                 continue
             # -- constitution vs the independent walk of the same (variant) file
             frag_el = var.xfrag_cache[key]
+            if intended is not None and "renumber" not in ops and frag_el.get("id") != intended[key]:
+                fails.append(Fail("label-resolves-to-another-fragment", f"{where}: label drawn under fragment id {intended[key]}, resolved to fragment id {frag_el.get('id')}", recipe=sub))
+                continue
             try:
                 gx = walk(frag_el)
             except HarnessError:
@@ -352,7 +500,7 @@ def check(recipe) -> list[Fail]:
             has_feat = any(b.get("Display") in MIRROR for b in frag_el.iter("b"))
             has_const = any(x.get("Charge") or x.get("Isotope") or x.get("Radical") for x in frag_el.iter("n")) or frag_el.find("./n/fragment") is not None
             if has_feat or has_const:
-                nt_keys.append((recipe["file"], key, tuple(ops), recipe["seed"] if ops else 0))
+                nt_keys.append((fname if "file" in recipe else _rhash(recipe["drawing"]), key, tuple(ops), recipe["seed"] if ops else 0))
             if not iso(gx, gv):
                 fails.append(Fail("constitution-differs-from-drawing", f"{where}: drawing {describe(gx)} | parsed {describe(gv)}", recipe=sub))
                 continue
@@ -387,9 +535,14 @@ def check(recipe) -> list[Fail]:
             if not np.all(np.isfinite(mv.coords)):
                 fails.append(Fail("non-finite-coordinates", where, recipe=sub))
                 continue
+            # For NEW drawings (outside the property's quantifier, which names the bundled files and their variants) the 3-D
+            # interpretation is asserted only when the fragment carries exactly ONE stereo mark: with several marks the unchanged
+            # tree's result depends on the order of non-commuting out-of-plane operations (see DESIGN 10.4) and is not asserted.
+            n_marks = sum(1 for b_ in frag_el.iter("b") if b_.get("Display") in MIRROR)
+            stereo_asserted = ("drawing" not in recipe) or n_marks == 1
             # -- absolute handedness of unambiguous centres, from the drawing alone
-            for (ci, h_exp, h) in absolute_handedness(frag_el, mv):
-                nt_abs.append((recipe["file"], key, ci))
+            for (ci, h_exp, h) in (absolute_handedness(frag_el, mv) if stereo_asserted else []):
+                nt_abs.append((fname if "file" in recipe else _rhash(recipe["drawing"]), key, ci))
                 if abs(h) >= 0.05 and h * h_exp < 0:
                     fails.append(Fail("absolute-handedness-differs-from-drawing", f"{where}: centre {ci} ({mv.atoms[ci].element.symbol}): drawing gives sign {h_exp:+.2f}, model has {h:+.3f}", recipe=sub))
                     break
@@ -400,7 +553,7 @@ def check(recipe) -> list[Fail]:
             if not iso(gv, gm):
                 fails.append(Fail("mirroring-stereo-marks-changes-constitution", f"{where}", recipe=sub))
                 continue
-            if mm.n_atoms == mv.n_atoms:
+            if mm.n_atoms == mv.n_atoms and stereo_asserted:
                 hv, hm = handed(mv), handed(mm)
                 for i in hv:
                     if i in hm and max(abs(hv[i]), abs(hm[i])) >= 0.05 and not (hv[i] * hm[i] < 0):
@@ -419,7 +572,7 @@ def check(recipe) -> list[Fail]:
 
 
 def classify(recipe):
-    return False, ["file=" + recipe["file"]] + ["op=" + o for o in recipe["ops"]] + ([] if recipe["ops"] else ["op=identity"])
+    return False, ["file=" + recipe.get("file", "generated")] + ["op=" + o for o in recipe["ops"]] + ([] if recipe["ops"] else ["op=identity"])
 
 
 def enum_identity(tier, shard, nshards):
@@ -433,10 +586,20 @@ def strat_variants(tier):
     return st.fixed_dictionaries({"file": st.sampled_from(FILES), "ops": ops, "seed": st.integers(0, 10**6)})
 
 
+def classify_drawn(recipe):
+    fr = recipe["drawing"]["frags"]
+    marks = sorted({str(SUB_MARKS[sb["mark"] % len(SUB_MARKS)]) for f in fr for sb in f["subs"]})
+    return False, ["generated_drawing", f"fragments={len(fr)}"] + ["skel=" + f["skel"] for f in fr[:1]] + ["mark=" + m for m in marks] + ["op=" + o for o in recipe["ops"]]
+
+
 LEGS = [
     Leg("bundled", check, classify, enumerate=enum_identity, exhaustive=True, shards={"quick": 7, "thorough": 7},
         rule="EVERY labelled fragment of the 7 bundled .cdxml files (116 labels): constitution vs. independent ElementTree walk, total charge / multiplicity, determinism, wedge<->hash mirror relation; "
              "evaluations = fragments; non-trivial = fragment has a stereo mark, a charge / isotope / radical or a nested fragment"),
+    Leg("drawn", check, classify_drawn, strategy=strat_drawn, n={"quick": 300, "thorough": 8000}, shards={"quick": 16, "thorough": 32},
+        rule="NEW drawings written by the harness as minimal CDXML: 1-3 labelled fragments, each a 3-7 ring or zig-zag chain with 0-6 substituents (some with a second-shell atom, some attachment points), elements B..Br, "
+             "charges, isotopes, radicals, hydrogen hints, bond orders 1/2/3/aromatic, stereo marks {Wedge, WedgedHash (Begin / End, narrow end at either atom), Bold, Hash, Dash} on substituent bonds, a non-label caption; "
+             "optionally also permuted / translated / renumbered; same per-fragment oracle (independent walk, charge / multiplicity, determinism, label -> intended fragment, absolute handedness, mirror relation)"),
     Leg("variants", check, classify, strategy=strat_variants, n={"quick": 120, "thorough": 3000}, shards={"quick": 16, "thorough": 32},
         rule="generated variants of the bundled files: 1-4 of {top-level objects permuted, page translated, node/bond ids renumbered, <n> children permuted}, each again with its mirrored twin; every label of the variant is checked"),
 ]
